@@ -149,8 +149,10 @@ fn corruptions(own: Variant, sh: &Shape, n_wit: usize) -> Vec<Corr> {
     let n = 1u64 << sh.h;
     for i in 0..sh.qs.len() {
         out.push(Corr::Value(i));
-        for k in [160u32, 248, 250] {
-            out.push(Corr::ValueHigh(i, k));
+        if sh.qs.len() <= 3 {
+            for k in [160u32, 248, 250] {
+                out.push(Corr::ValueHigh(i, k));
+            }
         }
         let cur = sh.qs[i] as u64;
         let mut targets: Vec<u64> = Vec::new();
@@ -180,8 +182,10 @@ fn corruptions(own: Variant, sh: &Shape, n_wit: usize) -> Vec<Corr> {
     }
     for k in 0..n_wit {
         out.push(Corr::Sibling(k));
-        for b in [160u32, 248, 250] {
-            out.push(Corr::SiblingHigh(k, b));
+        if sh.qs.len() <= 3 {
+            for b in [160u32, 248, 250] {
+                out.push(Corr::SiblingHigh(k, b));
+            }
         }
         out.push(Corr::DeleteSibling(k));
     }
@@ -205,7 +209,7 @@ pub fn run(ctx: &Ctx) -> Report {
         "exploration",
         "every (height h, friendly-layer count f in 0..=h+1, non-empty sorted query subset) within the tier bound, \
          each with the honest instance and every single-position corruption (queried value, index -> other index / \
-         out of range, consumed sibling, root, deleted sibling, honest instance of each other hash variant); a case \
+         out of range, consumed sibling, root, deleted sibling, value / sibling + 2^160 / 2^248 / 2^250 for query sets of size <= 3, honest instance of each other hash variant); a case \
          is non-trivial when its honest instance was accepted; distinct by (variant,h,f,subset,corruption)",
     );
     rep.trust("Poseidon (starknet-crypto), Keccak-256 (sha3), Blake2s-256 (blake2) as primitives");
